@@ -213,3 +213,191 @@ class UpdateGen(object):
             idv = copy.deepcopy(doc['_id']) if self.r.random() < keep_id else self.r.choice(INTS)
             d = dict([('_id', idv)] + list(d.items()))
         return d
+
+
+class PositionalGen(object):
+    """Updates through the positional operator `$` together with the filter that is to select the
+    array element: documents holding arrays of sub-documents (fields k, v, c.y, l) under `a` / `b`
+    and an array of scalars under `d`; filters that constrain the array by ONE condition (dotted
+    or operator), by `$elemMatch`, by several conditions, only through other fields, inside
+    `$and` / `$or`, by a negation, through a key that merely shares a prefix, or that no element
+    satisfies; every operator that takes a positional path, alone, twice, nested, next to
+    non-positional operators, with `$[]` / `$[id]`, on nested arrays, as an upsert.  `kind` names
+    the filter shape, for the evidence."""
+
+    ARR = ['a', 'b']
+
+    def __init__(self, rng):
+        self.r = rng
+        self.kinds = {}
+
+    def _note(self, k):
+        self.kinds[k] = self.kinds.get(k, 0) + 1
+
+    def element(self):
+        r = self.r
+        e = {'k': r.choice([1, 2, 3]), 'v': r.choice([0, 5, 'x'])}
+        x = r.random()
+        if x < 0.3:
+            e['l'] = [r.choice([1, 2, 3]) for _ in range(r.choice([0, 1, 2, 3]))]
+        elif x < 0.45:
+            e['c'] = {'y': r.choice([0, 1])}
+        elif x < 0.55:
+            e['l'] = [{'k': r.choice([1, 2]), 'v': r.choice([0, 5])}
+                      for _ in range(r.choice([1, 2]))]
+        elif x < 0.6:
+            del e['v']
+        return e
+
+    def docs(self):
+        """2-3 documents with an array of sub-documents under a or b (sometimes holding a
+        scalar), an array of scalars under d and a plain field c"""
+        r = self.r
+        f = r.choice(self.ARR)
+        out = []
+        for _ in range(r.choice([2, 3])):
+            arr = [self.element() for _ in range(r.choice([0, 1, 2, 3, 3]))]
+            if r.random() < 0.1:
+                arr.insert(r.randrange(len(arr) + 1), r.choice([1, 'x', None, [1, 2]]))
+            d = {f: arr, 'c': r.choice([1, 2]),
+                 'd': [r.choice([1, 2, 3, 5]) for _ in range(r.choice([0, 2, 3]))]}
+            if r.random() < 0.15:
+                d['ab'] = r.choice([1, None, [{'k': 1}]])
+            out.append(d)
+        return out, f
+
+    def filter(self, f):
+        r = self.r
+        x = r.random()
+        k = r.choice([1, 2, 3])
+        if x < 0.22:
+            self._note('filter:single-dotted')
+            return {f + '.k': r.choice([k, {'$gt': k - 1}, {'$gte': k}, {'$in': [k, 9]}])}
+        if x < 0.42:
+            self._note('filter:elemMatch')
+            q = {'k': r.choice([k, {'$gte': k}])}
+            if r.random() < 0.4:
+                q['v'] = r.choice([0, 5, 'x'])
+            return {f: {'$elemMatch': q}}
+        if x < 0.52:
+            self._note('filter:several-conditions')
+            return {f + '.k': k, f + '.v': r.choice([0, 5, 'x'])}
+        if x < 0.62:
+            self._note('filter:other-fields-only')
+            return r.choice([{'c': r.choice([1, 2])}, {}, {'c': {'$gte': 1}}])
+        if x < 0.68:
+            self._note('filter:no-match')
+            return r.choice([{f + '.k': 9}, {f: {'$elemMatch': {'k': 9}}}, {'c': 9, f + '.k': k}])
+        if x < 0.78:
+            self._note('filter:scalar-array')
+            n = r.choice([1, 2, 3, 5])
+            return r.choice([{'d': n}, {'d': {'$gt': n - 1}}, {'d': {'$elemMatch': {'$gte': n}}},
+                             {'d': {'$in': [n, 7]}}])
+        if x < 0.84:
+            self._note('filter:logical')
+            return r.choice([{'$and': [{f + '.k': k}]}, {'$or': [{f + '.k': k}, {'c': 9}]},
+                             {'$and': [{f: {'$elemMatch': {'k': k}}}, {'c': {'$gte': 1}}]}])
+        if x < 0.88:
+            self._note('filter:negation')
+            return r.choice([{f + '.k': {'$ne': k}}, {f + '.k': {'$nin': [k]}},
+                             {f + '.k': {'$not': {'$gt': k}}}])
+        if x < 0.92:
+            self._note('filter:prefix-key')
+            base = {f + '.k': k}
+            extra = r.choice([{'ab': None}, {'ab': {'$exists': False}}, {'ab.k': 1}, {'ab': 1}])
+            return dict(list(base.items()) + list(extra.items())) if r.random() < 0.5 else \
+                dict(list(extra.items()) + list(base.items()))
+        if x < 0.96:
+            self._note('filter:array-and-dotted')
+            return r.choice([{f + '.k': k, f: {'$size': 2}}, {f: {'$size': 2}, f + '.k': k},
+                             {f: {'$elemMatch': {'k': k}}, 'c': r.choice([1, 2])},
+                             {f + '.k': k, 'c': r.choice([1, 2])}])
+        self._note('filter:elemMatch-on-nested')
+        return r.choice([{f + '.l': {'$elemMatch': {'k': 1}}}, {f + '.l.k': 1}, {f + '.l': 2},
+                         {f + '.c.y': 1}])
+
+    def update(self, f):
+        r = self.r
+        P = f + '.$'
+        val = lambda: r.choice([7, 'y', None, {'k': 9, 'v': 9}, [4]])
+        singles = [
+            lambda: {'$set': {P + '.v': val()}},
+            lambda: {'$set': {P + '.v': val()}},
+            lambda: {'$inc': {P + '.k': r.choice([1, 10])}},
+            lambda: {'$unset': {P + '.v': ''}},
+            lambda: {'$min': {P + '.k': r.choice([0, 2])}},
+            lambda: {'$max': {P + '.k': r.choice([2, 7])}},
+            lambda: {'$set': {P: val()}},
+            lambda: {r.choice(['$inc', '$unset', '$min', '$max', '$pop']): {P: r.choice([1, -1])}},
+            lambda: {'$currentDate': {P + '.t': True}},
+            lambda: {'$pop': {P + '.l': r.choice([1, -1])}},
+            lambda: {'$push': {P + '.l': r.choice([4, {'$each': [4, 1], '$position': 0}])}},
+            lambda: {'$addToSet': {P + '.l': r.choice([1, 4, {'$each': [1, 4]}])}},
+            lambda: {'$pull': {P + '.l': r.choice([1, 2, {'k': 1}, {'$gt': 1}])}},
+            lambda: {'$pullAll': {P + '.l': [1, 2]}},
+            lambda: {'$push': {P: 4}},
+            lambda: {'$set': {P + '.c.y': 3}},
+            lambda: {'$set': {P + '.l.$': 8}},
+            lambda: {'$set': {P + '.l.0': 8}},
+            lambda: {'$set': {P + '.l.$.v': 8}},
+            lambda: {'$set': {'d.$': r.choice([8, 'y'])}},
+            lambda: {'$inc': {'d.$': 10}},
+            lambda: {'$set': {f + '.$[].v': 7}},
+            lambda: {'$set': {f + '.$[e].v': 7}},
+            lambda: {'$set': {f + '.0.l.$': 7}},
+            lambda: {'$setOnInsert': {P + '.v': 7}},
+            lambda: {'$rename': {P + '.v': P + '.w'}},
+        ]
+        x = r.random()
+        if x < 0.62:
+            self._note('update:single')
+            return r.choice(singles)()
+        if x < 0.74:
+            self._note('update:two-positional-keys')
+            op = r.choice(['$set', '$set', '$inc'])
+            v1, v2 = (r.choice([7, 'y']), r.choice([8, 'z'])) if op == '$set' else (1, 10)
+            second = r.choice([P + '.k', P + '.c.y', P + '.w', 'd.$', P])
+            return {op: dict([(P + '.v', v1), (second, v2)])}
+        if x < 0.9:
+            self._note('update:with-other-operator')
+            pos = r.choice(singles[:14])()
+            other = r.choice([{'$set': {'c': 5}}, {'$inc': {'c': 1}}, {'$push': {'d': 4}},
+                              {'$addToSet': {'d': 4}}, {'$pull': {'d': 2}}, {'$unset': {'c': ''}},
+                              {'$set': {f + '.0.v': 6}}, {'$push': {f: {'k': 1, 'v': 0}}},
+                              {'$set': {f: []}}, {'$rename': {'c': 'e'}}, {'$pop': {f: -1}},
+                              {'$addToSet': {'e.l': 1}}, {'$pullAll': {'e.l': [1]}}])
+            a, b = (pos, other) if r.random() < 0.5 else (other, pos)
+            u = dict(a)
+            for k2, body in b.items():
+                if k2 in u:
+                    u[k2] = dict(list(u[k2].items()) + list(body.items()))
+                else:
+                    u[k2] = body
+            return u
+        self._note('update:two-positional-operators')
+        a, b = r.choice(singles[:14])(), r.choice(singles[:14])()
+        u = dict(a)
+        for k2, body in b.items():
+            u[k2] = dict(list(u.get(k2, {}).items()) + list(body.items()))
+        return u
+
+    def ops(self, f, shadow=None):
+        """one operation using the positional operator: update_one / update_many /
+        find_one_and_update / a bulk_write of update requests"""
+        r = self.r
+        filt = self.filter(f)
+        u = self.update(f)
+        upsert = r.random() < 0.08
+        x = r.random()
+        if x < 0.4:
+            return ['update_one', filt, u, upsert]
+        if x < 0.72:
+            return ['update_many', filt, u, upsert]
+        if x < 0.86:
+            sort = r.choice([None, [['c', 1]], [['_id', -1]]])
+            return ['find_one_and_update', filt, u, None, sort, upsert, r.random() < 0.5]
+        reqs = [[r.choice(['UpdateOne', 'UpdateMany']), filt, u, upsert]]
+        if r.random() < 0.5:
+            reqs.append([r.choice(['UpdateOne', 'UpdateMany']), self.filter(f), self.update(f),
+                         False])
+        return ['bulk_write', reqs, r.random() < 0.5]
